@@ -236,22 +236,23 @@ def run(ctx):
     r4 = Rule("C07", "C07.R4", "itext serialiser: one translation per language, one text per id, default marked once", floor=5,
               necessary="a duplicated language/id, or two defaults, makes the itext block ambiguous")
     itx = scls.methods["itext"]
-    for dl, exp_default in (("fr", ["fr"]), ("default", []), ("en", ["en"])):
+    for dl, exp_default, l1, l2 in (("fr", ["fr"], "en", "fr"), ("default", [], "en", "fr"), ("en", ["en"], "en", "fr"),
+                                    ("fr", ["fr"], "default", "fr"), ("default", ["default"], "default", "fr"), ("", [], "en", "fr")):
         it = ctx.interp("C07.R4", hooks={"fnname:node": node_hook, "fnname:insert_output_values": lambda i, a, k, n: (([x for x in a if isinstance(x, str)] or ["?"])[0], False)})
         it.reset([])
-        tr = {"en": {"/d/q:label": {"long": "x", "type": "question"}, "l-0": {"long": "A", "image": "a.png", "audio": "-"}},
-              "fr": {"/d/q:label": {"long": "y", "type": "question"}, "l-0": {"long": "-", "image": "-", "audio": "-"}}}
+        tr = {l1: {"/d/q:label": {"long": "x", "type": "question"}, "l-0": {"long": "A", "image": "a.png", "audio": "-"}},
+              l2: {"/d/q:label": {"long": "y", "type": "question"}, "l-0": {"long": "-", "image": "-", "audio": "-"}}}
         so = Obj(scls, {"_translations": tr, "default_language": dl}, name="survey")
         res = it.call_function(itx, [so], {}, None, itx.node)
         ok = isinstance(res, NodeVal) and res.tag == "itext"
         langs = [c.attrs.get("lang") for c in res.children] if ok else []
         defaults = [c.attrs.get("lang") for c in res.children if c.attrs.get("default") == "true()"] if ok else []
-        r4.check(ok and langs == ["en", "fr"] and defaults == exp_default, f"itext[default_language={dl}]", f"translations {['en', 'fr']}, default marked on {exp_default}", itx.loc(),
+        r4.check(ok and langs == [l1, l2] and defaults == exp_default, f"itext[default_language={dl!r}, languages={l1},{l2}]", f"one translation per language, default marked on {exp_default}", itx.loc(),
                  why_fail=f"langs={langs} defaults={defaults}")
         if ok:
             for c in res.children:
                 tids = [t.attrs.get("id") for t in c.children]
-                r4.check(tids == ["/d/q:label", "l-0"] and all(t.tag == "text" for t in c.children), f"itext[default_language={dl}]:{c.attrs.get('lang')}", "one text element per id", itx.loc(), why_fail=f"{tids}")
+                r4.check(tids == ["/d/q:label", "l-0"] and all(t.tag == "text" for t in c.children), f"itext[default_language={dl!r}, languages={l1},{l2}]:{c.attrs.get('lang')}", "one text element per id", itx.loc(), why_fail=f"{tids}")
     rules.append(r4)
 
     # ------------------------------------------------------------------ R5 sentinel
